@@ -29,13 +29,13 @@ ASSUMPTIONS = [
     "ln^(2k-1)(1-z) and integrates with epsrel 1.5e-8 (typical agreement 2e-14, 4e-9, 9e-8, 2e-6; worst cases on steep "
     "low-degree bases next to a node 5e-7, 1e-5, 4e-4 - the cut alone is worth 1e-10*ln^5(1e-10) = 6e-4 at N3LO)",
     "plus 4e-10*23^(k-1)/(1-x): the documented 1e-10 border cut of the z range is a relative error of that size when x -> 1",
-    "kernel list and weights are taken from the package (they are the subject of C02/C07/C12/C13); CC heavy is generated "
-    "with a single heavy flavour per observable so that the mass entering the rescaling is known from the card",
+    "kernel list and weights are taken from the package (they are the subject of C02/C07/C12/C13); the mass entering the CC "
+    "rescaling is the card mass of the observable's flavour, or for CC totals the kernel's own mass, which must be a card mass",
     "the independent engine uses eko's documented block rule for the basis but none of its code",
 ]
 BUDGET = {"quick": {"examples": 3200, "wall": 600, "min_evaluations": 150}, "thorough": {"examples": 12000, "wall": 2400, "min_evaluations": 3000}}
 MANDATORY = {
-    t: ["nontrivial", "x:node", "x:offnode", "grid:log", "grid:linear", "shifted-convolution-point", "x:near-one", "pto:3", "family:heavy", "family:asy", "family:intrinsic"]
+    t: ["nontrivial", "x:node", "x:offnode", "grid:log", "grid:linear", "shifted-convolution-point", "x:near-one", "pto:3", "family:heavy", "family:asy", "family:intrinsic", "cc-total-with-massive-component"]
     for t in ("quick", "thorough")
 }
 SHRINK = {"quick": False, "thorough": True}
@@ -48,8 +48,8 @@ HQ = {4: "mc", 5: "mb", 6: "mt"}
 def cases(draw, tier="quick"):
     cfg = draw(configs.config(max_pto=3, targets=("proton", "proton", "ZA"), grid_kw={"nmax": 10}, n_points=(1, 1), q2range=(1.5, 1e5)))
     meta = cfg["meta"]
-    if meta["process"] == "CC" and meta["scheme"] != "ZM-VFNS" and meta["heavyness"] == "total":
-        # one heavy flavour per observable for CC (see ASSUMPTIONS)
+    if meta["process"] == "CC" and meta["scheme"] != "ZM-VFNS" and meta["heavyness"] == "total" and draw(st.booleans()):
+        # half of the CC totals are replaced by one of their components
         h = draw(st.sampled_from(["light", "charm", "bottom", "top"]))
         name = f"{meta['kind']}_{h}"
         cfg["obs"]["observables"] = {name: cfg["obs"]["observables"][meta["name"]]}
@@ -97,9 +97,17 @@ def check_case(case):
                     ihq = max(abs(p) for p in ker.partons)
                     m2 = th[HQ[ihq]] ** 2
                 elif family == "heavy" and meta["process"] == "CC":
+                    # the mass of the produced quark: from the observable name, else from the kernel (it must be a card mass)
+                    km2 = q2 * (1.0 / float(ker.coeff.labda) - 1.0)  # the kernel stores lambda = 1/(1+m2/Q2) only
+                    cand = [th[HQ[hvq]] ** 2] if hvq is not None else [th[m] ** 2 for m in ("mc", "mb", "mt")]
+                    hit = sorted((abs(c2 - km2), c2) for c2 in cand if abs(c2 - km2) <= 1e-9 * c2 + 1e-14 * q2)
+                    hit = [h[1] for h in hit]
+                    if not hit:
+                        v.fail(f"C01:heavy-mass:{meta['process']}", f"{name}: CC heavy kernel {cls.__name__} carries m2={km2!r}, not a mass of the card {cand}")
+                        continue
+                    m2 = hit[0]
                     if hvq is None:
-                        raise RuntimeError("CC heavy kernel in an observable without a single heavy flavour")
-                    m2 = th[HQ[hvq]] ** 2
+                        v.label("cc-total-with-massive-component")
                 c = conv_point(family, meta["process"], x, q2, m2)
                 if c != x:
                     v.label("shifted-convolution-point")
